@@ -291,7 +291,10 @@ class V:
                     return V(float("nan") if _nan_is_value() else None)
                 return V(float("inf") if self.v > 0 else float("-inf"))
             return V(None)
-        return V(self.v / o.v)
+        res = self.v / o.v
+        if _isnan(res) and not _nan_is_value():
+            res = None  # inf / inf
+        return V(res)
 
     def __mod__(self, o):  # convention cell, never compared
         o = V.lift(o)
@@ -841,6 +844,9 @@ class Model:
                             out[j][k] = lo + (eq + 1) / 2.0
                 else:
                     a = _agg(meth, vals, be, len(vals))
+                    if be == "polars" and arg is not None and types.get(arg) == "null" and meth == "sum":
+                        a = None  # sum over a Null-typed column
+                        ntypes[k] = "null"
                     for j in idxs:
                         out[j][k] = a
         ncols = list(cols) + [k for k in p["ops"] if k not in cols]
